@@ -107,6 +107,8 @@ pub struct RunStats {
     pub state_hashes: Vec<u64>,
     pub hidden_cells_seen: bool,
     pub final_hash: u64,
+    /// the trace's own operations (injected ones not counted)
+    pub own_ops: u64,
 }
 
 fn actor_of(step: &Step) -> Actor {
@@ -132,6 +134,17 @@ fn foreign_op(step: &Step) -> Option<Op> {
 /// calls to the real Screen through the screen's own dispatch methods, one at a time, and lets
 /// the other actors in between.
 pub fn run_q(trace: &Trace, obs: &mut dyn Observer) -> Result<(RunStats, Screen), Violation> {
+    run_q_inject(trace, obs, &[])
+}
+
+/// Like run_q, with extra foreign operations injected right before the trace's own operation
+/// number k (counting only the trace's own operations); k = number of operations means "at the
+/// end". Used to enumerate the position of an asynchronous event completely.
+pub fn run_q_inject(
+    trace: &Trace,
+    obs: &mut dyn Observer,
+    inject: &[(u64, Op)],
+) -> Result<(RunStats, Screen), Violation> {
     let tap = Arc::new(Mutex::new(Tap::new(true)));
     let mut fe = FrontEnd::new(trace.front, trace.utf8, tap.clone());
     let mut queue: VecDeque<Op> = VecDeque::new();
@@ -143,7 +156,19 @@ pub fn run_q(trace: &Trace, obs: &mut dyn Observer) -> Result<(RunStats, Screen)
     let mut idx: u64 = 0;
     let mut sig: u64 = 0x5151;
 
+    let mut own: u64 = 0;
     macro_rules! apply {
+        ($actor:expr, $op:expr) => {{
+            for (k, iop) in inject.iter() {
+                if *k == own {
+                    apply_one!(Actor::Resizer, iop);
+                }
+            }
+            own += 1;
+            apply_one!($actor, $op);
+        }};
+    }
+    macro_rules! apply_one {
         ($actor:expr, $op:expr) => {{
             let op: &Op = $op;
             let need = obs.needs_snap($actor, op);
@@ -226,6 +251,12 @@ pub fn run_q(trace: &Trace, obs: &mut dyn Observer) -> Result<(RunStats, Screen)
     while let Some(op) = queue.pop_front() {
         apply!(Actor::Feeder, &op);
     }
+    for (k, iop) in inject.iter() {
+        if *k >= own {
+            apply_one!(Actor::Resizer, iop);
+        }
+    }
+    stats.own_ops = own;
     if !cur_valid {
         cur = Snapshot::take(&screen);
     }
